@@ -22,8 +22,8 @@ Definition Inv (s : state) : Prop :=
   (cb_ran (sdst s) = true -> reg_file s = true -> file_term s = true) /\
   (cb_ran (sdst s) = true -> reg_live s = true -> live_term s = true).
 
-Ltac unfI := unfold Inv, xbusy, rbusy, shut_file, shut_live, emit in *.
-Ltac unfS := unfold step, step_run, step_x, register, sd_advance, terminating, terminated.
+Ltac unfI := unfold Inv, xbusy, rbusy in *.
+Ltac unfS := unfold step, step_run, step_x, register, sd_advance, terminating, terminated, shut_file, shut_live, emit.
 Ltac fin2 := rw_hyps; simpl in *;
   try match goal with
       | |- context [sdst ?s] => destruct (sdst s) as [[]|] eqn:?
